@@ -127,6 +127,7 @@ type Gen struct {
 	lastUnbondAt  int64 // height at which some validator last started unbonding / was removed (approx.)
 	updatedInBlk  map[int]bool
 	createdOnce   [NOPS]bool
+	anteCfg       int
 }
 
 func NewGen(seed uint64, cfg GenCfg) *Gen {
